@@ -1,7 +1,7 @@
 (* Props/C01.v — C01, C07, C16 on the object machine (Machine/Machine.v).  `sem` (one ONNX node
    evaluated by onnxruntime) is a Section variable: the theorems hold for every kernel semantics. *)
 From Coq Require Import List Arith Bool.
-From ND Require Import Machine.Machine Machine.MachineFacts Machine.MachineSim.
+From ND Require Import Base.Tensor Machine.Machine Machine.MachineFacts Machine.MachineSim Machine.Shortcuts.
 Import ListNotations.
 
 Section P.
@@ -43,6 +43,17 @@ Print Assumptions C01_exported_model_equals_eager_evaluation.
 Print Assumptions C07_reported_values_are_sound.
 Print Assumptions C07_constant_folding_is_complete.
 Print Assumptions C16_no_value_without_onnxruntime.
+
+(* the two value-dependent shortcuts that survive in the library (logical_and / logical_or) are
+   neutral at tensor level: with the broadcasting And / Or kernel as `sem`, a single True (False)
+   operand of rank <= the other operand's rank returns that operand unchanged *)
+Theorem C01_logical_and_shortcut_is_neutral : forall x y,
+  scalar_like x true -> length (shape x) <= length (shape y) -> wf y -> t_and x y = Some y.
+Proof. exact and_true_neutral. Qed.
+Theorem C01_logical_or_shortcut_is_neutral : forall x y,
+  scalar_like x false -> length (shape x) <= length (shape y) -> wf y -> t_or x y = Some y.
+Proof. exact or_false_neutral. Qed.
+Print Assumptions C01_logical_and_shortcut_is_neutral.
 
 (* non-vacuity: a two-instruction program over nat "tensors" with one kernel (+) *)
 Definition sem_ex (k : unit) (vs : list nat) : option nat := match vs with [a; b] => Some (a + b) | _ => None end.
